@@ -6,6 +6,18 @@ ALL = ["C%02d" % i for i in range(1, 20)]
 
 # id -> (technique, level text, level note, design ref)
 CHECKS = {
+ "C07": ("explicit-state BFS over operation histories on two aliased tables of a real Vm (host API) + bounded-exhaustive enumeration of table-card sequences (script) against an insertion-ordered Vec model / the reference interpreter",
+         "Host seam: every history of insert/append/pop/remove up to the stated depth over keys {0,1,2,7,1.5,\"a\" via two distinct string objects,\"b\",nil} and values {1,2,table references incl. self}, from empty and pre-filled starts (one chosen with the real hasher so that the first rehash wraps probe chains); get/contains through every equal key form and &str, len, keys(), iter(), nth_key, bucket count compared in every distinct concrete state. Script seam: every sequence of SetProperty/AppendTable/PopTable/dotted SetVar cards up to length 2 (thorough 3) on two mutually aliased tables in main / callee / closure, followed by a full read-out, against the reference interpreter.",
+         "Bounded depth / length; NaN and signed-zero keys excluded per the statement.", "DESIGN.md §4 C07"),
+ "C09": ("bounded-exhaustive enumeration of (table, library function, callback, call path) programs against direct specification functions",
+         "Every table with <= 3 (thorough 4) entries over {nil,0,1,1.0,2,\"a\",\"bb\",{}} x 3 key styles x 10 library functions x 7 callback / key-function / non-table-input variants x 3 call paths; result, unchanged input and the callback invocation log must equal the specification implemented in the reference semantics.",
+         "min/max/sorted are only judged where the compared results are pairwise comparable under the language's order.", "DESIGN.md §4 C09"),
+ "C16": ("explicit-state BFS over edit sequences on the real Module against a labelled-tree model",
+         "For each of 37 card kinds a module with the kind at top level, under a list parent and under a fixed-arity parent; every insert/remove/replace at every valid and invalid index and every ordered pair for swap (depth 1 with swap, depth 2 without; thorough depth 2 with swap); after each edit the serialised module equals the tree model, failed edits are byte-identical no-ops, and in every state walk / child count / child enumeration / child lookup agree for every card.",
+         "Placeholder left by removing from a fixed slot is implementation-defined (any leaf).", "DESIGN.md §4 C16"),
+ "C19": ("exhaustive relation check (all pairs, all triples) over a finite universe of real runtime values, host seam and script seam",
+         "Reflexivity, symmetry, transitivity of ==, equal-implies-equal-hash (and table-key lookup), equality vs. order coherence, asymmetry, agreement of == and the coercing order with the reference semantics on exactly representable numbers, truthiness, termination; 96 equal-content tables with different bucket layouts; every constructible pair also through compiled Equals/NotEquals/Less/LessOrEq cards.",
+         "45-element universe; NaN, signed zero, f64-rounding-boundary pairs and cyclic tables are documented exceptions.", "DESIGN.md §4 C19"),
  "C06": ("bounded-exhaustive enumeration of closure program families run on the real compiler+VM against a reference interpreter with by-reference capture",
          "F-closure (8 creation contexts incl. callees at non-zero frame offsets, loop iterations, closures in closures, callees invoked from loops x 6 kinds of captured variable x read/write/read-write/inner-closure bodies x sibling sharing x export through global/table/argument x module placement next to a decoy module with different closure bodies at the same card positions) and F-closure-nest (middle and inner closures referencing every ordered selection of the enclosing variables, 3 contexts); every closure is called inside its scope, after the scope ended and once per loop iteration afterwards; host-call log and globals must equal the reference.",
          "Closure nesting <= 3 levels; unused statement values above a captured loop local are an open finding (dedicated sub-family).", "DESIGN.md §4 C06"),
